@@ -263,9 +263,18 @@ def _run(pid, cfg, tier, seed, work, t0, replay):
         crashers = [f for f in glob.glob(os.path.join(s.dir, "testdata", "fuzz", "*", "*"))]
         recorded = (st or {}).get("violations") or []
         if s.timed_out or "panic: test timed out" in s.out:
-            # a time budget being hit is never a violation
-            inconclusive.append("%s: time budget exceeded" % tag)
-            save_replay(pid, s.idx, "inconclusive-%s" % tag, s.out[-20000:])
+            # a time budget being hit is never a violation in itself; but what an
+            # oracle recorded (ev.Failf writes its record at once) before the
+            # budget ran out stands
+            early = sorted(glob.glob(os.path.join(s.dir, "replay", "*.txt")))
+            for rec in early:
+                body = "seed=%s tier=%s shard=%d args=%s\n(the shard ran out of its time budget after this was recorded)\n" % (
+                    env["VERIF_SEED"], tier, s.idx, " ".join(s.args))
+                body += open(rec, errors="replace").read()
+                violations.append((os.path.basename(rec)[:-4], body, []))
+            if not early:
+                inconclusive.append("%s: time budget exceeded" % tag)
+                save_replay(pid, s.idx, "inconclusive-%s" % tag, s.out[-20000:])
             continue
         if s.rc == 0:
             continue
